@@ -2211,6 +2211,49 @@ void VariableManager::process_variable_declaration(const ASTNode *node) {
             ASTNode *init_node =
                 node->init_expr ? node->init_expr.get() : node->right.get();
 
+            // const安全性チェック（代入 `ptr = &x` と同じ規則を初期化にも適用）:
+            // const変数のアドレスを非constポインタで初期化しようとしていないか確認
+            if (!node->is_function_pointer &&
+                init_node->node_type == ASTNodeType::AST_UNARY_OP &&
+                init_node->op == "ADDRESS_OF" && init_node->left &&
+                init_node->left->node_type == ASTNodeType::AST_VARIABLE) {
+                Variable *target_var = find_variable(init_node->left->name);
+
+                // ケース1: const変数のアドレスを非constポインタで初期化
+                if (target_var && target_var->is_const &&
+                    !node->is_pointee_const_qualifier) {
+                    throw std::runtime_error(
+                        "Cannot initialize non-const pointer '" + node->name +
+                        "' with address of const variable '" +
+                        init_node->left->name +
+                        "'. Use a pointer to const (const T*) instead");
+                }
+
+                // ケース2: const T* のアドレスを非const T** で初期化
+                if (target_var && target_var->type == TYPE_POINTER &&
+                    target_var->is_pointee_const && node->pointer_depth >= 2 &&
+                    !node->is_pointee_const_qualifier) {
+                    throw std::runtime_error(
+                        "Cannot initialize non-const double pointer '" +
+                        node->name +
+                        "' with address of pointer to const (const T*) '" +
+                        init_node->left->name +
+                        "'. The pointee should be 'const T**', not 'T**'");
+                }
+
+                // ケース3: T* const のアドレスを非const T** で初期化
+                if (target_var && target_var->type == TYPE_POINTER &&
+                    target_var->is_pointer_const && node->pointer_depth >= 2 &&
+                    !node->is_pointee_const_qualifier) {
+                    throw std::runtime_error(
+                        "Cannot initialize non-const double pointer '" +
+                        node->name +
+                        "' with address of const pointer (T* const) '" +
+                        init_node->left->name +
+                        "'. Use 'const' qualifier appropriately");
+                }
+            }
+
             // Phase 2: 初期化式内に関数呼び出しがある場合、const情報をチェック
             // (v0.9.2)
             // init_node自体またはその子ノードに関数呼び出しがある可能性
